@@ -74,12 +74,23 @@ Definition point_inputs (s : scope) (cm : chanmap) (entries : list (expr * list 
 Definition inputs_guard (r : result (list (chan * list tentry))) : bool :=
   match r with Ok kept => forallb (fun ce => tbl_guard (snd ce)) kept | Err _ => true end.
 
+(* known finding `multi-zero-duration-part` (C01_multi_zero_refuted): AtomicMultiChannelPT.build_waveform silently drops a
+   part that builds no waveform although one of its channels is kept (its duration evaluates to <= 0) while another part
+   builds one, instead of rejecting the unequal durations *)
+Definition builds_none (s : scope) (cm : chanmap) (x : atom) : bool :=
+  match build_waveform x s cm with Ok None => true | _ => false end.
+Definition builds_some (s : scope) (cm : chanmap) (x : atom) : bool :=
+  match build_waveform x s cm with Ok (Some _) => true | _ => false end.
+Definition multi_ghost (s : scope) (cm : chanmap) (l : list atom) : bool :=
+  existsb (fun x => kept_any cm (atom_chans x) && builds_none s cm x) l && existsb (builds_some s cm) l.
+
 Fixpoint atom_guard (a : atom) (s : scope) (cm : chanmap) : bool :=
   match a with
   | AConst _ _ => true
   | ATable chs => inputs_guard (table_inputs s cm chs)
   | APoint es chs => inputs_guard (point_inputs s cm es chs)
   | AMulti l => (fix go (l : list atom) : bool := match l with [] => true | x :: r => atom_guard x s cm && go r end) l
+                && negb (multi_ghost s cm l)
   | AArith l _ r => atom_guard l s cm && atom_guard r s cm
   | AFunc d c _ _ =>      (* FunctionPT does not drop a non-positive duration *)
       match cm c, evals s d with Some _, Ok dv => Qltb' 0 dv | _, _ => true end
